@@ -79,7 +79,8 @@ func setupEVMWorld(w *e.World) error {
 	m := &evmWorld{deployer: len(w.Accts) - 1}
 	w.Ext["evm"] = m
 	dep := w.Acct(m.deployer)
-	for i := 0; i < nFIC; i++ {
+	// victims: extra FIC instances that programs may SELFDESTRUCT (C05 only)
+	for i := 0; i < nFIC+int(w.Cfg.Flags["victims"]); i++ {
 		nonce := w.EthNonce(dep.Eth)
 		res, err := w.DoEth(dep, e.EthArgs{Type: 2, Data: evmprog.Deployer(evmprog.FIC()), Gas: 600_000})
 		if err != nil || res.Code != 0 {
@@ -108,7 +109,7 @@ func setupEVMWorld(w *e.World) error {
 	// fic_staked: the FICs themselves hold stake (and so earn rewards): the
 	// deployer grants each FIC a delegate allowance and has it delegate its own funds
 	if w.Cfg.Flags["fic_staked"] > 0 {
-		for i := range m.fics {
+		for i := range m.fics[:nFIC] {
 			ap := &PCall{PC: "staking", M: "approve", To: fmt.Sprintf("fic:%d", i), Amt: "9000000000000000000", Methods: []string{stakingMsgURLs[0]}}
 			data, _ := m.packPCall(w, ap)
 			to := addrStaking
@@ -260,6 +261,14 @@ func genPCall(w *e.World, r *e.RNG, signer, self int) *PCall {
 		who = fmt.Sprintf("fic:%d", r.Intn(nFIC))
 	}
 	c := &PCall{Who: who, Val: r.Intn(len(w.Vals)), Val2: r.Intn(len(w.Vals))}
+	if w.Cfg.Flags["jail_bias"] == 1 && r.Chance(0.5) {
+		// aim at a jailed validator (grants made after the jailing do not name it)
+		for vi, v := range w.Vals {
+			if val, ok := w.App().StakingKeeper.GetValidator(w.Ctx(), v.ValAddr); ok && val.Jailed {
+				c.Val, c.Val2 = vi, vi
+			}
+		}
+	}
 	amt := r.Amount(e.BigS("3000000000000000000"))
 	if r.Chance(0.5) {
 		amt = big.NewInt(r.Range(1, 1_000_000_000))
@@ -304,7 +313,14 @@ func genProgram(w *e.World, r *e.RNG, signer, self, depth int, budget *int) []*e
 			if depth >= 3 {
 				continue
 			}
+			if nv := int(w.Cfg.Flags["victims"]); nv > 0 && r.Chance(0.3) {
+				prog = append(prog, victimCall(w, r, nFIC+r.Intn(nv)))
+				continue
+			}
 			callee := r.Intn(nFIC)
+			if w.Cfg.Flags["small_vals"] == 1 && self >= 0 && r.Chance(0.4) {
+				callee = self // re-entrant: the callee writes the caller's own slots
+			}
 			node := &evmprog.Node{Kind: evmprog.OpCall, Target: fmt.Sprintf("fic:%d", callee), Catch: r.Chance(0.6)}
 			if r.Chance(0.3) {
 				node.Value = r.Amount(big.NewInt(1_000_000_000)).String()
@@ -335,7 +351,12 @@ func genProgram(w *e.World, r *e.RNG, signer, self, depth int, budget *int) []*e
 		case 2: // value to an EOA
 			prog = append(prog, &evmprog.Node{Kind: evmprog.OpCall, Target: fmt.Sprintf("acct:%d", w.AnyAcct(r)), Value: r.Amount(big.NewInt(1_000_000_000)).String(), Catch: true})
 		case 3:
-			prog = append(prog, &evmprog.Node{Kind: evmprog.OpSStore, Key: uint64(r.Intn(4)), Val: uint64(r.Range(0, 1000))})
+			if w.Cfg.Flags["small_vals"] == 1 {
+				// few keys and values: frames overwrite and restore each other's (and the committed) values
+				prog = append(prog, &evmprog.Node{Kind: evmprog.OpSStore, Key: uint64(r.Intn(2)), Val: uint64(r.Intn(3))})
+			} else {
+				prog = append(prog, &evmprog.Node{Kind: evmprog.OpSStore, Key: uint64(r.Intn(4)), Val: uint64(r.Range(0, 1000))})
+			}
 		default:
 			prog = append(prog, &evmprog.Node{Kind: evmprog.OpLog, Key: uint64(r.Intn(200))})
 		}
@@ -345,6 +366,26 @@ func genProgram(w *e.World, r *e.RNG, signer, self, depth int, budget *int) []*e
 		prog = append(prog, &evmprog.Node{Kind: []int{evmprog.OpRevert, evmprog.OpRevert, evmprog.OpInvalid}[r.Intn(3)]})
 	}
 	return prog
+}
+
+// victimCall: a call into a disposable FIC that writes a little and then (mostly)
+// self-destructs towards some account. No precompile or nested FIC calls inside,
+// because a frame that ends in SELFDESTRUCT returns no trace.
+func victimCall(w *e.World, r *e.RNG, victim int) *evmprog.Node {
+	node := &evmprog.Node{Kind: evmprog.OpCall, Target: fmt.Sprintf("fic:%d", victim), Catch: r.Chance(0.7), Sub: []*evmprog.Node{}}
+	for i := r.Intn(3); i > 0; i-- {
+		if r.Chance(0.6) {
+			node.Sub = append(node.Sub, &evmprog.Node{Kind: evmprog.OpSStore, Key: uint64(r.Intn(2)), Val: uint64(r.Intn(3))})
+		} else {
+			node.Sub = append(node.Sub, &evmprog.Node{Kind: evmprog.OpLog, Key: uint64(r.Intn(200))})
+		}
+	}
+	if r.Chance(0.75) {
+		node.Sub = append(node.Sub, &evmprog.Node{Kind: evmprog.OpSelfDestruct, Target: fmt.Sprintf("acct:%d", w.AnyAcct(r))})
+	} else if r.Chance(0.4) {
+		node.Sub = append(node.Sub, &evmprog.Node{Kind: evmprog.OpRevert})
+	}
+	return node
 }
 
 // Prog is the payload of a "prog" step.
